@@ -81,7 +81,7 @@ void run_case(ByteSource& s, CaseInfo& ci) {
   for (int step = 0; step < nops && !s.exhausted(); step++) {
     unsigned op = s.choose(48);
     char nm[80]; snprintf(nm, sizeof nm, "op%u", op);
-    bool threw = false;
+    bool threw = false, forced_now = false;
     uint64_t allocs_before = ledger::allocs(); int live_vectors_before = 0; for (int q = 0; q < NV; q++) if (v[q].st == VALID && !v[q].ext) live_vectors_before++;
     try {
       switch (op) {
@@ -240,7 +240,13 @@ void run_case(ByteSource& s, CaseInfo& ci) {
           static const gsl_odeiv2_step_type* steps[] = {gsl_odeiv2_step_rk2, gsl_odeiv2_step_rk4, gsl_odeiv2_step_rkf45, gsl_odeiv2_step_rkck, gsl_odeiv2_step_rk8pd, gsl_odeiv2_step_msadams};
           unsigned st = s.choose(6); bool adaptive = st == 5 ? true : s.flag();
           sol[k]->Set_GSL_step(steps[st]); sol[k]->Set_AdaptiveStep(adaptive); sol[k]->Set_NumSteps(20); sol[k]->Set_rel_error(1e-6); sol[k]->Set_abs_error(1e-6); sol[k]->Set_h(1e-3);
-          sol[k]->Evolve(s.flag() ? 0.0 : 0.05); break;
+          // sometimes the integration is made to fail (minimum step far too large for the tolerance): Evolve must end in the
+          // library's exception without leaking the GSL driver
+          bool force_fail = adaptive && m != 0 && s.choose(6) == 0;
+          forced_now = force_fail;
+          if (force_fail) { sol[k]->Set_rel_error(1e-13); sol[k]->Set_abs_error(1e-13); sol[k]->Set_h_min(0.5); sol[k]->Set_h(0.5); }
+          struct Restore { Sol* p; bool on; ~Restore() { if (on) { p->Set_h_min(1e-300); p->Set_h(1e-3); } } } restore{sol[k].get(), force_fail};
+          sol[k]->Evolve(s.flag() && !force_fail ? 0.0 : 0.05); break;
         }
         case 42: {  // expectation values, inside and outside the grid
           int k = (int)s.choose(2); if (!sol[k] || sol[k]->NX() < 2) break;
@@ -265,6 +271,7 @@ void run_case(ByteSource& s, CaseInfo& ci) {
       int now = 0; for (int q = 0; q < NV; q++) if (v[q].st == VALID && !v[q].ext) now++;
       if (now > live_vectors_before) for (int q = 0; q < NV; q++) if (v[q].st == VALID && !v[q].ext && released_after_throw[v[q].d]) cache_hit_after = true;
     }
+    if (forced_now) ci.label(threw ? "forced-gsl-failure-threw" : "forced-gsl-failure-did-not-throw");
     log += nm; if (threw) { log += "!"; throws++; threw_before = true; } log += " ";
     if (threw) for (int i = 0; i < NV; i++) if (v[i].st == ABSENT) v[i].v.reset();  // a constructor that threw leaves the slot absent
     CHECK(ledger::bad_delete_count() == bad0, "C15|foreign-or-double-delete", "delete[] of %p which the allocator does not hold, after %s :: %s", ledger::last_bad, nm, log.c_str());
